@@ -746,7 +746,7 @@ def clean_covers_create(unit, create_name, clean_name):
     by the clean-up helper too.  The recovery paths run clean-up and
     then create again on the same object, and create decides by what it finds in those fields (an ownership flag left TRUE makes
     the re-created handle reset the counter and remove the object at free).  -> (fields compared, [fields not reset])"""
-    cr = unit.fn(create_name, raw=True)
+    cr = unit.fn(create_name)             # folded-in view: the stores may sit in `open_existing (h)` / `create_new (h)` helpers
     cl = unit.fn(clean_name)              # with its own static helpers folded in: a `reset_fields (h)` helper counts
 
     def stores(f):
